@@ -9,6 +9,7 @@ pub fn run(kind: &str, i: &Input) -> String {
         "vm_op" => vm_op(i),
         "asm_bytes" => asm_bytes(i),
         "vm_prog" => vm_prog(i),
+        "crypto_roundtrip" => crypto_roundtrip(i),
         "vm_compute" => vm_compute(i),
         "types_convert" => types_convert(i),
         "hash_addrs" => hash_addrs(i),
@@ -688,4 +689,66 @@ fn vm_compute(i: &Input) -> String {
     })();
     let ref_s = match reference { Ok(s) => s, Err(_) => "err".to_string() };
     format!("result=ok\nreal={real_s}\nreference={ref_s}\n")
+}
+
+/// native differential checks of the crypto plumbing with real keys: contract sign/recover/verify, the VM's
+/// RecoverSecp256k1 / VerifyEd25519 / Sha256 ops against the sign and hash crates
+fn crypto_roundtrip(i: &Input) -> String {
+    use essential_sign::secp256k1::{PublicKey, Secp256k1, SecretKey};
+    use essential_types::{contract::Contract, convert::*};
+    let mut out = String::new();
+    let seed: u8 = get(i, "seed").parse().unwrap_or(7);
+    let len: usize = get(i, "len").parse().unwrap_or(13);
+    let sk = SecretKey::from_slice(&[seed.max(1); 32]).unwrap();
+    let pk = PublicKey::from_secret_key(&Secp256k1::new(), &sk);
+    // (1) contract
+    let mut salt = [0u8; 32];
+    for (j, b) in bytes(get(i, "salt")).into_iter().enumerate().take(32) { salt[j] = b; }
+    let contract = Contract { predicates: vec![], salt };
+    let signed = essential_sign::contract::sign(contract.clone(), &sk);
+    let rec = essential_sign::contract::recover(&signed);
+    out += &format!("contract_recover_is_signer={}\n", matches!(rec, Ok(p) if p == pk));
+    out += &format!("contract_verify={}\n", essential_sign::contract::verify(&signed).is_ok());
+    let mut bad = signed.clone(); bad.signature.1 = 9;
+    out += &format!("bad_recovery_id_is_error={}\n", essential_sign::contract::recover(&bad).is_err());
+    // (2) VM RecoverSecp256k1 vs sign crate
+    let digest = essential_hash::hash_bytes(&vec![seed; len]);
+    let sig = essential_sign::sign_hash(digest, &sk);
+    let mut st: Vec<i64> = word_4_from_u8_32(digest).to_vec();
+    st.extend(word_8_from_u8_64(sig.0)); st.push(sig.1 as i64);
+    let mut vm = Vm::default();
+    vm.stack = Stack::try_from(st).unwrap();
+    let r = vm.exec_ops(&[asm::Crypto::RecoverSecp256k1.into()], test_access(), &NoState, &|_: &Op| 1, GasLimit::UNLIMITED);
+    out += &format!("vm_recover_matches_encode={}\n", r.is_ok() && vm.stack.to_vec() == essential_sign::encode::public_key(&pk).to_vec());
+    // (3) VM Sha256 vs hash crate on `len` bytes
+    let data: Vec<u8> = (0..len).map(|k| (k as u8).wrapping_mul(37).wrapping_add(seed)).collect();
+    let mut words_: Vec<i64> = data.chunks(8).map(|c| word_from_bytes_slice(c)).collect();
+    words_.push(len as i64);
+    let mut vm = Vm::default();
+    vm.stack = Stack::try_from(words_.clone()).unwrap();
+    let r = vm.exec_ops(&[asm::Crypto::Sha256.into()], test_access(), &NoState, &|_: &Op| 1, GasLimit::UNLIMITED);
+    out += &format!("vm_sha256_matches_hash_bytes={}\n", r.is_ok() && vm.stack.to_vec() == word_4_from_u8_32(essential_hash::hash_bytes(&data)).to_vec());
+    // (4) VM VerifyEd25519 with a real ed25519 key
+    use ed25519_dalek::Signer;
+    let edk = ed25519_dalek::SigningKey::from_bytes(&[seed; 32]);
+    let edsig = edk.sign(&data);
+    let mut st = words_.clone();
+    st.extend(word_8_from_u8_64(edsig.to_bytes()));
+    st.extend(word_4_from_u8_32(edk.verifying_key().to_bytes()));
+    let mut vm = Vm::default();
+    vm.stack = Stack::try_from(st.clone()).unwrap();
+    let r = vm.exec_ops(&[asm::Crypto::VerifyEd25519.into()], test_access(), &NoState, &|_: &Op| 1, GasLimit::UNLIMITED);
+    out += &format!("vm_ed25519_accepts_valid={}\n", r.is_ok() && vm.stack.to_vec() == vec![1]);
+    let mut st2 = st.clone(); st2[0] ^= 1 << 60;
+    if len > 0 {
+        let mut vm = Vm::default();
+        vm.stack = Stack::try_from(st2).unwrap();
+        let r = vm.exec_ops(&[asm::Crypto::VerifyEd25519.into()], test_access(), &NoState, &|_: &Op| 1, GasLimit::UNLIMITED);
+        out += &format!("vm_ed25519_rejects_tampered={}\n", r.is_ok() && vm.stack.to_vec() == vec![0]);
+    }
+    // (5) encodings
+    let rs = essential_sign::secp256k1::ecdsa::RecoverableSignature::from_compact(&sig.0, essential_sign::secp256k1::ecdsa::RecoveryId::try_from(sig.1 as i32).unwrap()).unwrap();
+    let sw = essential_sign::encode::signature(&rs);
+    out += &format!("signature_words_layout={}\n", sw[..8] == word_8_from_u8_64(sig.0) && sw[8] == sig.1 as i64);
+    out + "result=ok\n"
 }
